@@ -92,7 +92,7 @@ PROPS: Dict[str, Dict[str, Any]] = {
                          "src_dataclass_sync", "src_dataclass_async", "src_namedtuple_sync", "src_namedtuple_async",
                          "src_class_generic", "src_class_same", "src_instance_to_dict", "dataclassSync_eq", "dataclassAsync_eq",
                          "cGate_exec", "recGate_class", "clsGate_dict", "clsGate_inst", "clsGate_rej", "cFinal_keys",
-                         "cFinal_ok", "cTail_exec", "clsGate_dict_of_no_coercer"],
+                         "cFinal_ok", "cTail_exec", "clsGate_dict_of_no_coercer", "src_class_inits"],
             "modules": ["KodaModel.Properties.C04", "KodaModel.Properties.C04DictAny", "KodaModel.Properties.C04Record",
                         "KodaModel.Properties.C04TypedDict", "KodaModel.Properties.C04Class"],
             "level_note": "the C04_* theorems state the property about recordStep (all five record-shaped validators share it).  "
